@@ -224,6 +224,11 @@ def run(chk):
     nw = [(m, n) for m, n in tw.get("_now", []) if m != "__init__"]
     ok = bool(nw) and all(isinstance(n, ast.Assign) and isinstance(n.value, ast.Call) and dotted(n.value.func) == "time.perf_counter" for m, n in nw) and {m for m, _ in nw} == {"start", "next"}
     chk.ob("O5.2", "now only from the monotonic clock in start()/next()", ok, nw[0][1] if nw else TB, f"writers: {[(m, short(n, 40)) for m, n in nw]}")
+    # every call of start() / next() advances `now`: warm-up / progress / completion are all read off it, also for a task whose end the parameter source decides
+    cond = [(m, n) for m, n in nw if guards(n)]
+    chk.ob("O5.2", "the clock is read on every call of start()/next() (unconditionally)", bool(nw) and not cond, cond[0][1] if cond else TB,
+           "" if not cond else f"{cond[0][0]}() reads the clock only under {[u(t) for t, _ in guards(cond[0][1])]}: otherwise `now` never advances and every sample stays warm-up",
+           key=f"{_D}:TimePeriodBased:now-unconditional")
     # start() makes start == now (elapsed 0)
     stf = _prop(drv, TB, "start")
     ok = any(isinstance(n, ast.Assign) and is_self_attr(n.targets[0], "_start") and (is_self_attr(n.value, "_now") or dotted(getattr(n.value, "func", ast.Name(id=""))) == "time.perf_counter") for n in walk_body(stf))
@@ -502,6 +507,42 @@ def run(chk):
     tpat = [n for n in TKc.body if isinstance(n, ast.Assign) and u(n.targets[0]) == "THROUGHPUT_PATTERN"]
     ok = bool(tpat) and isinstance(tpat[0].value, ast.Call) and bool(tpat[0].value.args) and isinstance(tpat[0].value.args[0], ast.Constant) and "(?P<value>" in tpat[0].value.args[0].value and "(?P<unit>" in tpat[0].value.args[0].value and "/s" in tpat[0].value.args[0].value
     chk.ob("O5.6", "string form parsed with named groups value / unit (unit ends in /s)", ok, tpat[0] if tpat else TKc, "")
+    # regex AST (re._parser): the pattern is exactly <value group> <one whitespace> <unit group>; the decimal point and the fraction digits are INSIDE the value group
+    ok = False
+    detail = ""
+    if tpat and isinstance(tpat[0].value, ast.Call) and tpat[0].value.args and isinstance(tpat[0].value.args[0], ast.Constant):
+        import re._parser as _rp  # the standard library's own regex parser; nothing is matched, the pattern's syntax tree is inspected
+        try:
+            tree = _rp.parse(tpat[0].value.args[0].value)
+            gi = tree.state.groupdict
+            items = list(tree)
+            names = {v: k for k, v in gi.items()}
+            top = [(str(op), names.get(av[0]) if str(op) == "SUBPATTERN" else None) for op, av in items]
+            shape = [t for t in top]
+            vgrp = next((av[3] for op, av in items if str(op) == "SUBPATTERN" and names.get(av[0]) == "value"), None)
+
+            def lits(sub):
+                out = set()
+                for op, av in sub:
+                    if str(op) == "LITERAL":
+                        out.add(chr(av))
+                    elif str(op) in ("SUBPATTERN",):
+                        out |= lits(av[3])
+                    elif str(op) in ("MAX_REPEAT", "MIN_REPEAT"):
+                        out |= lits(av[2])
+                    elif str(op) == "BRANCH":
+                        for alt in av[1]:
+                            out |= lits(alt)
+                return out
+
+            exact = [n for _, n in shape] == ["value", None, "unit"] and shape[1][0] == "IN"
+            ok = exact and vgrp is not None and "." in lits(vgrp)
+            detail = f"top-level sequence: {[n or o for o, n in shape]}; literals inside the value group: {sorted(lits(vgrp)) if vgrp is not None else None}" + \
+                ("" if ok else " — part of the number lies outside the value group: '2.5 docs/s' is read as 2, '0.5 ops/s' as 0 (unthrottled)")
+        except Exception as e:  # noqa: BLE001 - a pattern the parser rejects is reported, not a crash
+            detail = f"pattern not parseable: {e}"
+    chk.ob("O5.6", "throughput pattern == <value incl. fraction> <space> <unit>: nothing of the number outside the value group", ok, tpat[0] if tpat else TKc, detail,
+           key="esrally/track/track.py:Task.THROUGHPUT_PATTERN:value-group-covers-fraction")
     reads = {source.inline(v_, {}) for v_ in tdefs.values()}
     ok = IVX in reads and TVX in reads
     chk.ob("O5.6", "read from the keys target-throughput / target-interval", ok, tt, "")
